@@ -134,6 +134,11 @@ def collect(prop, tier, seed):
                             wfind.append(dict(w, msg='C06 after a throw: ' + w.get('msg', '')))
             for c in core['crashes']:
                 crashes.append(c)
+            if core['stats'].get('bad_op'):
+                # self-check of the machinery: a generated line that harness or driver cannot parse tests nothing
+                smp = (core.get('bad_op_samples') or [{}])[0]
+                corr.append(dict(why='generator defect: %d generated lines are not understood (e.g. %r)' % (core['stats']['bad_op'], smp.get('line')),
+                                 channel='-', op=smp.get('line', '-'), case=[], impl=smp.get('impl', ''), model=smp.get('model', ''), config=smp.get('config', '-')))
             for k, e in core.get('build_errors', {}).items():
                 corr.append(dict(why='harness does not compile for ' + k + ': ' + e[-600:], channel='-', op='-', case=[], impl='', model='', config=k))
             cov.update(evaluations=core['lines'], cases=core['cases'], distinct=core['distinct'], samples=core['samples'][:3], stats=core['stats'],
